@@ -174,9 +174,8 @@ func literal(intPart uint64, sign string, fracLen int, fdigit byte, fd uint8) (c
 		return "", "", nil
 	}
 	if err != nil {
-		if fracLen > int(fd) {
-			return "", "", nil // excess zero digits: an error is acceptable (RFC 9.3: lexically invalid)
-		}
+		// (zeros beyond the precision denote nothing: the number fits, so this is an error
+		// like any other; it was tolerated until fix b6ecc53)
 		return "decimal-literal-rejected", fmt.Sprintf("ParseDecimal(%s, %d): %v", short, fd, err), facts
 	}
 	gb := new(big.Int).SetUint64(got.Value)
